@@ -1,3 +1,4 @@
+import BigDec.Model.ToF64
 import BigDec.Model.Inverse
 import BigDec.Spec.RoundCert
 import BigDec.Spec.Div
@@ -34,7 +35,7 @@ def handle (op : String) (args : List String) (impl : String) : Verdict :=
   | "inv", [a, p, mode, guess] =>
     match parseDec? a, parseNat? p, Mode.ofString? mode, parseDec? guess, parseDec? impl with
     | some a, some p, some m, some g, some r =>
-      let model := a.inverseCtx estF64 p m g
+      let model := a.inverseCtx F64.estCode p m g
       let (ok, why) := if a.isOne then (Spec.valueEq r ⟨1, 0⟩, "one") else invOK a p r
       let mok := match model with
         | some x => if a.isOne then true else (invOK a p x).1
@@ -48,7 +49,7 @@ def handle (op : String) (args : List String) (impl : String) : Verdict :=
     match parseDec? a, parseDec? guess, parseDec? impl with
     | some a, some g, some r =>
       let p := Generated.buildDefaultPrecision
-      let model := a.inverseCtx estF64 p Generated.buildDefaultMode g
+      let model := a.inverseCtx F64.estCode p Generated.buildDefaultMode g
       let (ok, why) := if a.isOne then (Spec.valueEq r ⟨1, 0⟩, "one") else invOK a p r
       { model := showOptDec model, mi := model == some r, si := ok, sm := true, note := why,
         tag := "oneover:" ++ form, trivial := false }
